@@ -296,6 +296,14 @@ def make_items(tier, rnd):
     for val in (0, 1, 7, 255, 256, 257, -1, -256, 65535):
         lit = "%d" % val if val >= 0 else "-%d" % -val
         items.append({"kind": "xrun", "src": ("proc main() is 0(%s)" % lit).encode(), "stdin": b"", "accepted": True, "exit": val})
+    # input bytes >= 0x80 and end of input, used in comparisons (not only modulo 256): xrun must see what hexsim sees
+    for src in ("val get = 2; proc main() is var c; { c := get(0); if c < 128 then 0(1) else 0(2) }",
+                "val get = 2; proc main() is var c; { c := get(0); if c = 255 then 0(7) else 0(8) }",
+                "val put = 1; val get = 2; proc main() is var c; var n; { n := 0; c := get(0); while (n < 5) and (c > 0) do { put('0' + n, 0); c := get(0); n := n + 1 }; 0(n) }",
+                "val get = 2; var x; proc main() is { x := get(0) + get(0); if x > 300 then 0(3) else 0(4) }"):
+        for inp in (b"\xe9", b"\x80\x80", b"\xff", b"", b"A", b"\x7f\x81zz"):
+            items.append({"kind": "xrun", "src": src.encode(), "stdin": inp, "accepted": True, "exit": None})
+            items.append({"kind": "xrun-seq", "src": src.encode(), "stdin": inp, "accepted": True, "first": b"proc main() is 0(3)"})
     rnd.shuffle(items)
     return items
 
